@@ -64,7 +64,7 @@ NoStep == Step(None, lo, hi, live)
 L == hi - lo
 
 \* the code of `next` of the forward type
-Front ==
+FrontStep ==
     CASE kind \in {"iter", "copied"} -> IF lo < hi THEN Step(Some(<<lo, lo + 1>>), lo + 1, hi, TRUE) ELSE NoStep
       [] kind = "windows" -> IF L < n THEN NoStep ELSE Step(Some(<<lo, lo + n>>), lo + 1, hi, TRUE)
       [] kind = "chunks" ->
@@ -80,7 +80,7 @@ Front ==
             IF L = 0 THEN NoStep ELSE Step(Some(<<hi - n, hi>>), lo, hi - n, TRUE)
 
 \* the code of `next_back` of the forward type
-Back ==
+BackStep ==
     CASE kind \in {"iter", "copied"} -> IF lo < hi THEN Step(Some(<<hi - 1, hi>>), lo, hi - 1, TRUE) ELSE NoStep
       [] kind = "windows" -> IF L < n THEN NoStep ELSE Step(Some(<<hi - n, hi>>), lo, hi - 1, TRUE)
       [] kind = "chunks" ->
@@ -97,8 +97,8 @@ Back ==
             IF L = 0 THEN NoStep ELSE Step(Some(<<lo, lo + n>>), lo + n, hi, TRUE)
 
 \* what the *current type* (forward or Rev) does for next / next_back
-DoNext     == IF fwd THEN Front ELSE Back
-DoNextBack == IF fwd THEN Back ELSE Front
+DoNext     == IF fwd THEN FrontStep ELSE BackStep
+DoNextBack == IF fwd THEN BackStep ELSE FrontStep
 
 Take(s, name) ==
     /\ IsSome(s.item)
@@ -126,18 +126,18 @@ LiveInv == kind \in {"chunks", "rchunks"} => (live <=> lo # hi)
 \* M's front / back item is the first / last item of std's partition of the remaining slice,
 \* and M stops exactly when that partition is empty
 Refines ==
-    /\ Front.item = (IF Remaining = <<>> THEN None ELSE Some(Remaining[1]))
-    /\ Back.item  = (IF Remaining = <<>> THEN None ELSE Some(Remaining[Len(Remaining)]))
+    /\ FrontStep.item = (IF Remaining = <<>> THEN None ELSE Some(Remaining[1]))
+    /\ BackStep.item  = (IF Remaining = <<>> THEN None ELSE Some(Remaining[Len(Remaining)]))
     \* after a front step the rest of the partition is unchanged (same for the back)
     /\ Remaining # <<>> =>
-          /\ (IF kind \in {"chunks", "rchunks"} /\ ~Front.live THEN <<>> ELSE Partition(kind, Front.lo, Front.hi, n))
+          /\ (IF kind \in {"chunks", "rchunks"} /\ ~FrontStep.live THEN <<>> ELSE Partition(kind, FrontStep.lo, FrontStep.hi, n))
                 = Tail(Remaining)
-          /\ (IF kind \in {"chunks", "rchunks"} /\ ~Back.live THEN <<>> ELSE Partition(kind, Back.lo, Back.hi, n))
+          /\ (IF kind \in {"chunks", "rchunks"} /\ ~BackStep.live THEN <<>> ELSE Partition(kind, BackStep.lo, BackStep.hi, n))
                 = SubSeq(Remaining, 1, Len(Remaining) - 1)
 
 RemainderInv == kind \in ExactKinds => <<rlo, rhi>> = StdRemainder(kind, len, n)
 
 \* every yielded window lies inside the remaining slice (C01)
-ItemsInside == /\ IsSome(Front.item) => lo <= Front.item.some[1] /\ Front.item.some[2] <= hi
-               /\ IsSome(Back.item)  => lo <= Back.item.some[1]  /\ Back.item.some[2] <= hi
+ItemsInside == /\ IsSome(FrontStep.item) => lo <= FrontStep.item.some[1] /\ FrontStep.item.some[2] <= hi
+               /\ IsSome(BackStep.item)  => lo <= BackStep.item.some[1]  /\ BackStep.item.some[2] <= hi
 =============================================================================
